@@ -255,6 +255,17 @@ impl Hist {
 
 pub fn run_c15(out: &mut Out, tier: &str, seed: u64) {
     let mut rng = Rng::new(seed);
+    // recorded witness of known finding F6 (duplicate names: first-wins before promotion, last-wins after)
+    {
+        let r = guarded(|| {
+            let mut v: Value = sonic_rs::from_str(r#"{"a":1,"a":2}"#).unwrap();
+            let before = v.get("a").and_then(|x| x.as_u64());
+            v.as_object_mut().unwrap().insert(&"b", 0);
+            let after = v.get("a").and_then(|x| x.as_u64());
+            before == after
+        });
+        out.case("expect", &["F6 witness: get(a) on {a:1,a:2} is the same before and after insert(b)"], if r == Ok(true) { "true" } else { "false" }, true);
+    }
     let n = if tier == "thorough" { 20000 } else { 2500 };
     let cfg = Cfg { max_depth: 2, max_width: 3, dup_free: true, long_strings: false, ..Cfg::default() };
     for _ in 0..n {
